@@ -21,14 +21,15 @@ def universe():
 class Tracked:
     """the tracked items of one fresh DEX object: objects, kinds, string ids, original names"""
 
-    def __init__(self, d, items):
+    def __init__(self, d, items, cls=None):
         self.d = d
         self.items = items           # list of (kind, object, sid, original)
+        self.cls = cls               # (given when the items must not be queried before the first operation)
 
     def begin(self):
         """the first record of a history: string ids, kinds, and for members the index of their (tracked) class"""
         class_idx = {it[3]: k + 1 for k, it in enumerate(self.items) if it[0] == "class"}
-        cls = [class_idx.get(it[1].get_class_name(), 0) if it[0] in ("method", "field") else 0 for it in self.items]
+        cls = self.cls or [class_idx.get(it[1].get_class_name(), 0) if it[0] in ("method", "field") else 0 for it in self.items]
         return dict(op="begin", item=0, name=0, obs=[], sid=[it[2] for it in self.items], kinds=[it[0] for it in self.items], cls=cls, err="")
 
     def name_for(self, kind, n):
@@ -61,6 +62,31 @@ class Tracked:
             return None
         except Exception as e:
             return repr(e)
+
+
+def untouched_twin(dex, raw, t):
+    """the same items of a second DEX object, located by position only: no accessor has been called on them before the first
+    operation of the history (members are loaded lazily; a rename can be the first thing that happens to an item)"""
+    d1, d2 = t.d, dex.DEX(raw)
+
+    def pos(lst, o):
+        return next(k for k, x in enumerate(lst) if x is o)
+    ms1, fs1, cs1 = list(d1.get_encoded_methods()), list(d1.get_encoded_fields()), list(d1.get_classes())
+    ms2, fs2, cs2 = list(d2.get_encoded_methods()), list(d2.get_encoded_fields()), list(d2.get_classes())
+    cls = t.begin()["cls"]
+    items = []
+    for kind, obj, sid, orig in t.items:
+        if kind == "method":
+            items.append((kind, ms2[pos(ms1, obj)], sid, orig))
+        elif kind == "field":
+            items.append((kind, fs2[pos(fs1, obj)], sid, orig))
+        elif kind == "class":
+            items.append((kind, cs2[pos(cs1, obj)], sid, orig))
+        else:
+            owner = next(m for m in ms1 if any(i is obj for i in m.get_instructions()))
+            k = pos(list(owner.get_instructions()), obj)
+            items.append((kind, list(ms2[pos(ms1, owner)].get_instructions())[k], sid, orig))
+    return Tracked(d2, items, cls=cls)
 
 
 def fresh_universe(dex, raw):
@@ -130,8 +156,10 @@ def run(chk):
     del states
     recs, starts, want_final = [], [], []
     sid = None
-    for st in leaves:
+    for k, st in enumerate(leaves):
         t = fresh_universe(dex, raw)
+        if k % 2:
+            t = untouched_twin(dex, raw, t)
         starts.append(len(recs))
         recs.append(t.begin())
         for (op, i, n) in st["hist"]:
@@ -151,6 +179,8 @@ def run(chk):
     shipped = open("/repo/tests/data/APK/classes.dex", "rb").read()
     for h in range(30 if quick else 600):
         t = fresh_universe(dex, raw) if h % 2 == 0 else shipped_universe(dex, shipped, rnd)
+        if h % 4 >= 2:
+            t = untouched_twin(dex, raw if h % 2 == 0 else shipped, t)
         starts.append(len(recs))
         recs.append(t.begin())
         ren = [i + 1 for i, it in enumerate(t.items) if it[0] != "const"]
